@@ -517,23 +517,30 @@ class _TrajILoc:
 class Pva:
     """a pva Series stand-in (argument of the constructor / set_pva)"""
 
-    def __init__(self, name, time='t_pva', vd0=False):
+    def __init__(self, name, time='t_pva', vd0=False, same_as=None):
+        """same_as: {column group: name of another supplied state whose values are bit-identical}
+        (distinct names otherwise denote different values: aliasing patterns are scenarios)"""
         self.pname = name
         self.name = time
         self.vd0 = vd0
+        self.same_as = dict(same_as or {})
 
     def key(self):
-        return mk('pva', self.pname, self.vd0)
+        return mk('pva', self.pname, self.vd0, *[mk(k, v) for k, v in sorted(self.same_as.items())])
 
     def copy(self):
-        return Pva(self.pname, self.name, self.vd0)
+        return Pva(self.pname, self.name, self.vd0, self.same_as)
+
+    def _src(self, c):
+        grp = {LLA: 'lla', VEL: 'vel', RPH: 'rph'}.get(c)
+        return self.same_as.get(grp, self.pname)
 
     def __getitem__(self, cols):
         c = tuple(cols) if isinstance(cols, list) else cols
         if c == VEL and self.vd0:
-            base = Tok('pvacols', mk('pva', self.pname, False), c)
+            base = Tok('pvacols', mk('pva', self._src(c), False), c)
             return [Tok('get', base, 0), Tok('get', base, 1), 0.0]
-        return Tok('pvacols', mk('pva', self.pname, False), c)
+        return Tok('pvacols', mk('pva', self._src(c), False), c)
 
     def __setattr__(self, k, v):
         if k == 'VD':
@@ -596,6 +603,23 @@ class StrapNP:
         return a
 
     def asarray(self, a, dtype=None):
+        return a
+
+    def array(self, a, dtype=None, copy=True):
+        return a
+
+    def array_equal(self, a, b):
+        # supplied values are terms: identical terms are equal, distinct terms denote different
+        # values (bit-identical re-supply is modelled by aliasing scenarios)
+        return _key(a) is _key(b)
+
+    def all(self, a):
+        return bool(a)
+
+    def any(self, a):
+        return bool(a)
+
+    def copy(self, a):
         return a
 
     def hstack(self, parts):
@@ -678,7 +702,15 @@ class IntegHarness:
         """arbitrary valid state: n rows so far, capacity cap, latest state = symbolic cells.
         vd_zero: the stored vertical velocity of the latest state is the literal 0.0
         (representation invariant of the 2D mode)."""
-        it = self.blank(with_altitude)
+        # the object comes from the real constructor (so that whatever attributes it sets
+        # exist), then its numeric state is replaced by the symbolic one
+        saved = self.SD.Integrator.INITIAL_SIZE
+        self.SD.Integrator.INITIAL_SIZE = cap
+        try:
+            it = self.SD.Integrator(Pva('Pinit'), with_altitude)
+        finally:
+            self.SD.Integrator.INITIAL_SIZE = saved
+        VIOL.items[:] = []
         if vd_zero is None:
             vd_zero = not with_altitude
         it.lla = SymBuf('lla', cap, (3,))
